@@ -837,6 +837,112 @@ theorem LongFloatLinkedMap_wire_interp (hash : Int → Nat) (m : LMap Int Int) :
   · rw [show Gen.C09IR.LongFloatLinkedMap_toBytes = canonWire true from by decide, interpToBytes_correct]; rfl
   · rw [show Gen.C09IR.LongFloatLinkedMap_toObject = canonWire true from by decide, interpReader_correct]
 
+
+/-! ### configuration setters: SetMax assigns the bound and nothing else; SetNullValue leaves the container alone -/
+
+/-- LinkedMap.SetMax: every statement of the method is `this.max = max; return this` — the model's `setMax`, with the frame
+    condition (table, order list, count, threshold untouched) -/
+theorem LinkedMap_setMax_interp (d : Desc K V) (hash : K → Nat) (thr : Nat → Nat) (m : LMap K V) (n : Nat) :
+    runC n Gen.C09IR.LinkedMap_setMax m = some (LMap.step hash thr d m (.setMax n)).1 ∧
+    ∀ m', runC n Gen.C09IR.LinkedMap_setMax m = some m' → m'.tab = m.tab ∧ m'.order = m.order ∧ m'.count = m.count ∧ m'.threshold = m.threshold ∧ m'.max = n := by
+  rw [show Gen.C09IR.LinkedMap_setMax = canonSetMax from by decide]; exact canonSetMax_correct d hash thr m n
+
+/-- IntKeyLinkedMap.SetMax: every statement of the method is `this.max = max; return this` — the model's `setMax`, with the frame
+    condition (table, order list, count, threshold untouched) -/
+theorem IntKeyLinkedMap_setMax_interp (d : Desc K V) (hash : K → Nat) (thr : Nat → Nat) (m : LMap K V) (n : Nat) :
+    runC n Gen.C09IR.IntKeyLinkedMap_setMax m = some (LMap.step hash thr d m (.setMax n)).1 ∧
+    ∀ m', runC n Gen.C09IR.IntKeyLinkedMap_setMax m = some m' → m'.tab = m.tab ∧ m'.order = m.order ∧ m'.count = m.count ∧ m'.threshold = m.threshold ∧ m'.max = n := by
+  rw [show Gen.C09IR.IntKeyLinkedMap_setMax = canonSetMax from by decide]; exact canonSetMax_correct d hash thr m n
+
+/-- LongKeyLinkedMap.SetMax: every statement of the method is `this.max = max; return this` — the model's `setMax`, with the frame
+    condition (table, order list, count, threshold untouched) -/
+theorem LongKeyLinkedMap_setMax_interp (d : Desc K V) (hash : K → Nat) (thr : Nat → Nat) (m : LMap K V) (n : Nat) :
+    runC n Gen.C09IR.LongKeyLinkedMap_setMax m = some (LMap.step hash thr d m (.setMax n)).1 ∧
+    ∀ m', runC n Gen.C09IR.LongKeyLinkedMap_setMax m = some m' → m'.tab = m.tab ∧ m'.order = m.order ∧ m'.count = m.count ∧ m'.threshold = m.threshold ∧ m'.max = n := by
+  rw [show Gen.C09IR.LongKeyLinkedMap_setMax = canonSetMax from by decide]; exact canonSetMax_correct d hash thr m n
+
+/-- StringKeyLinkedMap.SetMax: every statement of the method is `this.max = max; return this` — the model's `setMax`, with the frame
+    condition (table, order list, count, threshold untouched) -/
+theorem StringKeyLinkedMap_setMax_interp (d : Desc K V) (hash : K → Nat) (thr : Nat → Nat) (m : LMap K V) (n : Nat) :
+    runC n Gen.C09IR.StringKeyLinkedMap_setMax m = some (LMap.step hash thr d m (.setMax n)).1 ∧
+    ∀ m', runC n Gen.C09IR.StringKeyLinkedMap_setMax m = some m' → m'.tab = m.tab ∧ m'.order = m.order ∧ m'.count = m.count ∧ m'.threshold = m.threshold ∧ m'.max = n := by
+  rw [show Gen.C09IR.StringKeyLinkedMap_setMax = canonSetMax from by decide]; exact canonSetMax_correct d hash thr m n
+
+/-- IntIntLinkedMap.SetMax: every statement of the method is `this.max = max; return this` — the model's `setMax`, with the frame
+    condition (table, order list, count, threshold untouched) -/
+theorem IntIntLinkedMap_setMax_interp (d : Desc K V) (hash : K → Nat) (thr : Nat → Nat) (m : LMap K V) (n : Nat) :
+    runC n Gen.C09IR.IntIntLinkedMap_setMax m = some (LMap.step hash thr d m (.setMax n)).1 ∧
+    ∀ m', runC n Gen.C09IR.IntIntLinkedMap_setMax m = some m' → m'.tab = m.tab ∧ m'.order = m.order ∧ m'.count = m.count ∧ m'.threshold = m.threshold ∧ m'.max = n := by
+  rw [show Gen.C09IR.IntIntLinkedMap_setMax = canonSetMax from by decide]; exact canonSetMax_correct d hash thr m n
+
+/-- IntFloatLinkedMap.SetMax: every statement of the method is `this.max = max; return this` — the model's `setMax`, with the frame
+    condition (table, order list, count, threshold untouched) -/
+theorem IntFloatLinkedMap_setMax_interp (d : Desc K V) (hash : K → Nat) (thr : Nat → Nat) (m : LMap K V) (n : Nat) :
+    runC n Gen.C09IR.IntFloatLinkedMap_setMax m = some (LMap.step hash thr d m (.setMax n)).1 ∧
+    ∀ m', runC n Gen.C09IR.IntFloatLinkedMap_setMax m = some m' → m'.tab = m.tab ∧ m'.order = m.order ∧ m'.count = m.count ∧ m'.threshold = m.threshold ∧ m'.max = n := by
+  rw [show Gen.C09IR.IntFloatLinkedMap_setMax = canonSetMax from by decide]; exact canonSetMax_correct d hash thr m n
+
+/-- LongFloatLinkedMap.SetMax: every statement of the method is `this.max = max; return this` — the model's `setMax`, with the frame
+    condition (table, order list, count, threshold untouched) -/
+theorem LongFloatLinkedMap_setMax_interp (d : Desc K V) (hash : K → Nat) (thr : Nat → Nat) (m : LMap K V) (n : Nat) :
+    runC n Gen.C09IR.LongFloatLinkedMap_setMax m = some (LMap.step hash thr d m (.setMax n)).1 ∧
+    ∀ m', runC n Gen.C09IR.LongFloatLinkedMap_setMax m = some m' → m'.tab = m.tab ∧ m'.order = m.order ∧ m'.count = m.count ∧ m'.threshold = m.threshold ∧ m'.max = n := by
+  rw [show Gen.C09IR.LongFloatLinkedMap_setMax = canonSetMax from by decide]; exact canonSetMax_correct d hash thr m n
+
+/-- LongLongLinkedMap.SetMax: every statement of the method is `this.max = max; return this` — the model's `setMax`, with the frame
+    condition (table, order list, count, threshold untouched) -/
+theorem LongLongLinkedMap_setMax_interp (d : Desc K V) (hash : K → Nat) (thr : Nat → Nat) (m : LMap K V) (n : Nat) :
+    runC n Gen.C09IR.LongLongLinkedMap_setMax m = some (LMap.step hash thr d m (.setMax n)).1 ∧
+    ∀ m', runC n Gen.C09IR.LongLongLinkedMap_setMax m = some m' → m'.tab = m.tab ∧ m'.order = m.order ∧ m'.count = m.count ∧ m'.threshold = m.threshold ∧ m'.max = n := by
+  rw [show Gen.C09IR.LongLongLinkedMap_setMax = canonSetMax from by decide]; exact canonSetMax_correct d hash thr m n
+
+/-- StringIntLinkedMap.SetMax: every statement of the method is `this.max = max; return this` — the model's `setMax`, with the frame
+    condition (table, order list, count, threshold untouched) -/
+theorem StringIntLinkedMap_setMax_interp (d : Desc K V) (hash : K → Nat) (thr : Nat → Nat) (m : LMap K V) (n : Nat) :
+    runC n Gen.C09IR.StringIntLinkedMap_setMax m = some (LMap.step hash thr d m (.setMax n)).1 ∧
+    ∀ m', runC n Gen.C09IR.StringIntLinkedMap_setMax m = some m' → m'.tab = m.tab ∧ m'.order = m.order ∧ m'.count = m.count ∧ m'.threshold = m.threshold ∧ m'.max = n := by
+  rw [show Gen.C09IR.StringIntLinkedMap_setMax = canonSetMax from by decide]; exact canonSetMax_correct d hash thr m n
+
+/-- StringLongLinkedMap.SetMax: every statement of the method is `this.max = max; return this` — the model's `setMax`, with the frame
+    condition (table, order list, count, threshold untouched) -/
+theorem StringLongLinkedMap_setMax_interp (d : Desc K V) (hash : K → Nat) (thr : Nat → Nat) (m : LMap K V) (n : Nat) :
+    runC n Gen.C09IR.StringLongLinkedMap_setMax m = some (LMap.step hash thr d m (.setMax n)).1 ∧
+    ∀ m', runC n Gen.C09IR.StringLongLinkedMap_setMax m = some m' → m'.tab = m.tab ∧ m'.order = m.order ∧ m'.count = m.count ∧ m'.threshold = m.threshold ∧ m'.max = n := by
+  rw [show Gen.C09IR.StringLongLinkedMap_setMax = canonSetMax from by decide]; exact canonSetMax_correct d hash thr m n
+
+/-- LinkedSet.SetMax: every statement of the method is `this.max = max; return this` — the model's `setMax`, with the frame
+    condition (table, order list, count, threshold untouched) -/
+theorem LinkedSet_setMax_interp (d : Desc K V) (hash : K → Nat) (thr : Nat → Nat) (m : LMap K V) (n : Nat) :
+    runC n Gen.C09IR.LinkedSet_setMax m = some (LMap.step hash thr d m (.setMax n)).1 ∧
+    ∀ m', runC n Gen.C09IR.LinkedSet_setMax m = some m' → m'.tab = m.tab ∧ m'.order = m.order ∧ m'.count = m.count ∧ m'.threshold = m.threshold ∧ m'.max = n := by
+  rw [show Gen.C09IR.LinkedSet_setMax = canonSetMax from by decide]; exact canonSetMax_correct d hash thr m n
+
+/-- IntLinkedSet.SetMax: every statement of the method is `this.max = max; return this` — the model's `setMax`, with the frame
+    condition (table, order list, count, threshold untouched) -/
+theorem IntLinkedSet_setMax_interp (d : Desc K V) (hash : K → Nat) (thr : Nat → Nat) (m : LMap K V) (n : Nat) :
+    runC n Gen.C09IR.IntLinkedSet_setMax m = some (LMap.step hash thr d m (.setMax n)).1 ∧
+    ∀ m', runC n Gen.C09IR.IntLinkedSet_setMax m = some m' → m'.tab = m.tab ∧ m'.order = m.order ∧ m'.count = m.count ∧ m'.threshold = m.threshold ∧ m'.max = n := by
+  rw [show Gen.C09IR.IntLinkedSet_setMax = canonSetMax from by decide]; exact canonSetMax_correct d hash thr m n
+
+/-- StringLinkedSet.SetMax: every statement of the method is `this.max = max; return this` — the model's `setMax`, with the frame
+    condition (table, order list, count, threshold untouched) -/
+theorem StringLinkedSet_setMax_interp (d : Desc K V) (hash : K → Nat) (thr : Nat → Nat) (m : LMap K V) (n : Nat) :
+    runC n Gen.C09IR.StringLinkedSet_setMax m = some (LMap.step hash thr d m (.setMax n)).1 ∧
+    ∀ m', runC n Gen.C09IR.StringLinkedSet_setMax m = some m' → m'.tab = m.tab ∧ m'.order = m.order ∧ m'.count = m.count ∧ m'.threshold = m.threshold ∧ m'.max = n := by
+  rw [show Gen.C09IR.StringLinkedSet_setMax = canonSetMax from by decide]; exact canonSetMax_correct d hash thr m n
+
+/-- LongLongLinkedMap.SetNullValue: `this.NONE = none; return this` — the container is not touched -/
+theorem LongLongLinkedMap_setNull_interp (m : LMap K V) (n : Nat) : runC n Gen.C09IR.LongLongLinkedMap_setNull m = some m := by
+  rw [show Gen.C09IR.LongLongLinkedMap_setNull = canonSetNull from by decide]; exact canonSetNull_correct m n
+
+/-- StringIntLinkedMap.SetNullValue: `this.NONE = none; return this` — the container is not touched -/
+theorem StringIntLinkedMap_setNull_interp (m : LMap K V) (n : Nat) : runC n Gen.C09IR.StringIntLinkedMap_setNull m = some m := by
+  rw [show Gen.C09IR.StringIntLinkedMap_setNull = canonSetNull from by decide]; exact canonSetNull_correct m n
+
+/-- StringLongLinkedMap.SetNullValue: `this.NONE = none; return this` — the container is not touched -/
+theorem StringLongLinkedMap_setNull_interp (m : LMap K V) (n : Nat) : runC n Gen.C09IR.StringLongLinkedMap_setNull m = some m := by
+  rw [show Gen.C09IR.StringLongLinkedMap_setNull = canonSetNull from by decide]; exact canonSetNull_correct m n
+
 end interpreted2
 
 end C09Gen
